@@ -407,11 +407,14 @@ def py_pieces(src):
         return None
     sb = src.encode("utf-8")
 
-    def conv(values):
+    def conv(values, top=True):
         out = []
         for v in values:
             if isinstance(v, ast.Constant):
-                out.append(("L", "u" if v.kind == "u" else "-", _cps(v.value)))
+                # the kind marker is compared on top-level pieces only: inside a format spec CPython 3.11
+                # marks the first constant after a u'' literal and not the following ones (C07 does not
+                # speak about markers; C06 does, for literals)
+                out.append(("L", "u" if (v.kind == "u" and top) else "-", _cps(v.value)))
             elif isinstance(v, ast.FormattedValue):
                 e = v.value
                 dump = ast.dump(e)
@@ -421,7 +424,7 @@ def py_pieces(src):
                     rng = (a, b) if _range_denotes(sb, (a, b), dump) else ("any", dump)
                 except IndexError:
                     rng = ("any", dump)
-                spec = conv(v.format_spec.values) if v.format_spec is not None else None
+                spec = conv(v.format_spec.values, False) if v.format_spec is not None else None
                 if spec is None and v.format_spec is not None:
                     return None
                 out.append(("F", rng, _CONV.get(v.conversion, "?"), spec))
@@ -705,7 +708,46 @@ def pre_build(ctx):
         if not (os.path.exists(path2) and open(path2, encoding="utf-8").read() == text):
             with open(path2, "w", encoding="utf-8") as f:
                 f.write(text)
-    return [("behavioural conversion-letter table extracted (123 rows)", ok, "" if ok else line[:300])]
+    res = [("behavioural conversion-letter table extracted (123 rows)", ok, "" if ok else line[:300])]
+    res += spec_validation(ctx)
+    return res
+
+
+def spec_validation(ctx):
+    """Spec-side tie (DESIGN 1.1): the Lean reference scanner `PV.C07.Spec.split` is run by the driver
+    (`spec` op) on the same sources and must give CPython's decomposition (structure, conversions,
+    nested specs, literal values); the strict variant (`specd`, the domain of the partial theorem) must
+    coincide with the model wherever it answers.  A difference here is a defect of the SPEC (or of this
+    file), never of /repo."""
+    rc, out = core.lake_build([DRIVER])
+    if rc != 0:
+        return [("spec validation (driver build)", False, out[-300:])]
+    drv = core.driver_path(DRIVER)
+    srcs = CORPUS + gen_directed() + gen_random(ctx, 1500 if ctx.quick else 20000) + [s for _, s in KNOWN_PROBES]
+    reqs = [r for r in (req_of(s) for s in srcs) if r]
+    m = core.run_lines([drv], reqs, jobs=4)
+    sp = core.run_lines([drv], ["spec" + r[2:] for r in reqs], jobs=4)
+    sd = core.run_lines([drv], ["specd" + r[2:] for r in reqs], jobs=4)
+    bad1 = bad2 = 0
+    first = ""
+    inside = 0
+    for r, mo, so, do in zip(reqs, m, sp, sd):
+        src = unhex(r.split()[1]).decode("utf-8")
+        exp = py_pieces(src)
+        try:
+            got = _erase_ranges(_strip(parse_out(so))) if so.startswith("joined") else None
+        except Exception:
+            got = None
+        if got != _erase_ranges(exp):
+            bad1 += 1
+            first = first or f"spec != CPython on {src!r}: {so[:120]}"
+        if do != "reject":
+            inside += 1
+            if do != mo and "empty-literal-piece" not in shapes(src):
+                bad2 += 1
+                first = first or f"strict spec != model on {src!r}: {do[:100]} / {mo[:100]}"
+    return [(f"spec validation: Lean reference scanner = CPython on {len(reqs)} sources", bad1 == 0, first),
+            (f"strict reference scanner = model on the {inside} sources inside the theorem's domain", bad2 == 0, first)]
 
 
 # ------------------------------------------------------------------------------------------------ generators
@@ -762,7 +804,8 @@ CORPUS = [
     "f'{{x}}={x}'", "f'{x}={y}'", "f'={x}'", "f'!{x}!'", "f':{x}:'", "f'{x}' r'\\n' f'\\n' rf'\\n'", "u'a' 'b' f'{x}'",
     "f'{x!r}' u'a'", "f'{\"}\"}'", "f'{\"{\"}'", "f'{\":\"}'", "f'{\"!\"}'", "f'{\"=\"}'", "f\"{'\\\"'}\""[:0] + "f'{\"a\" \"b\"}'",
     "f'{[1,2][0]}'", "f'{ {1:2}[1] }'", "f'{ {1,2} }'", "f'{(1,2)}'", "f'{x:{(1)}}'", "f'{x:{a[0]}}'", "f'{x:{a!r}}'",
-    "f'{x!s:{a}{b}c{d}}'", "f'{a:{b:c}}'", "f'{a:{b!s:c}}'", "f'{x:{y}}{z:{w}}'",
+    "f'{x!s:{a}{b}c{d}}'", "f'{a:{b:c}}'", "f'{a:{b!s:c}}'", "f'{x:{y}}{z:{w}}'", "f'\\}}'", "f'a\\}}{x}'", "f'\\{{'",
+    "f'\\{{{x}\\}}'", "rf'\\}}\\{{'", "f'{x}\\}}'",
 ]
 
 KNOWN_PROBES = [
@@ -812,7 +855,7 @@ def gen_body(rng, q, raw, allow_newline):
         r = rng.random()
         if r < 0.35:
             lit = rng.choice(["a", "abc ", " ", "é", "{{", "}}", "{{}}", "x=", "!", ":", "=", "\\n", "\\\\", "\\x41", "\\u00e9",
-                              "\\N{BULLET}", "\\{", "\\'" if q != "'" or True else "", "\\q", "%", "#", "\t", "\\\n" if allow_newline else "\\t",
+                              "\\N{BULLET}", "\\{", "\\}}", "\\{{", "\\'" if q != "'" or True else "", "\\q", "%", "#", "\t", "\\\n" if allow_newline else "\\t",
                               "\n" if allow_newline else "-", "\r" if allow_newline else "+", "'" if q[0] != "'" else '"',
                               "''" if q[0] != "'" else '""', "\\0", "\\777", "😀", "\\U0001F600"])
             parts.append(lit)
